@@ -235,9 +235,8 @@ def _lit(d, desc, t, depth, ctx, nullable, kinds, risky, in_obj):
         plain = [v for v in vals if not keyword.iskeyword(v)]
         v = d.choice(vals)
         soft = [x for x in vals if keyword.issoftkeyword(x)]
-        if soft and d.bool(0.5):
+        if soft and d.bool(0.7):
             v = d.choice(soft)  # `match`, `case`, `type`: valid member names, so the default must name them unchanged
-            kinds.add("soft_keyword_enum")
         if keyword.iskeyword(v):
             if risky and d.enabled(f"{ctx}.keyword_enum"):
                 kinds.add("keyword_enum")
@@ -250,6 +249,8 @@ def _lit(d, desc, t, depth, ctx, nullable, kinds, risky, in_obj):
                 return "null" if nullable else None
             kinds.add("enum_in_object")
         kinds.add("enum")
+        if keyword.issoftkeyword(v):
+            kinds.add("soft_keyword_enum")
         return v
     if name in desc.scalars:
         kinds.add("custom_scalar")
